@@ -10,6 +10,10 @@ NOTE = ("Trusted base: go/types (type checking and constant evaluation), golang.
         "The check decides the named structural clauses only; the value-level remainder listed in the evidence under not_covered is not claimed.")
 
 CLAIMED = {
+ "C07": dict(level="other",
+   technique="static analysis: SSA value-identity and dominance checks on Stream.Recv/computeNeededBytes (bounded-extent slices, must-pass-through of the size limit before buffer growth, non-nil error on every non-decode exit)",
+   text="Decides, on the SSA of the receive loop, the structural facts that make framing independent of segmentation for every chunking at once: the transport is only ever asked for buf[read:need] where need is 8 and then the extent announced by the header, so a call can never consume a byte of the next message; the decoder sees exactly buf[:need] and only once read >= need; every other exit is a non-nil error (zero-length read included); the announced extent is compared with the configured maximum on every path before the buffer is grown, and the server configures a positive maximum. The enumeration of concrete segmentations and transports that break the io.Reader contract are outside.",
+   ref="§4 C07"),
  "C02": dict(level="other",
    technique="static analysis over the decode-reachable call graph: forbidden-construct rules (panic sites, unchecked type assertions), reader typestate (validate-before-use by dominance), length-guard dataflow for every index/slice with a recognised per-type length table, input-alias taint, per-loop progress",
    text="Enumerates every construct that could make a decoder panic, over-read, spin or write into its input, in the ~200 repository functions reachable while untrusted bytes are decoded, and discharges each by a local structural argument: explicit panics only where the guard depends on the destination type; no unchecked type assertion on an input-chosen value; every binary reader validated before use and confined to its parent's declared extent; every index, slice and fixed-width read dominated by a sufficient length fact (guard, validated typestate, or the length table recognised in validate()); no store/append through a slice aliasing the input; every loop consumes input or is a bounded range and every typed read advances; no reader error dropped. This found five crash/mutation defects, now repaired and guarded. Standard-library internals, memory exhaustion and a full termination proof are outside.",
